@@ -87,7 +87,10 @@ impl TcpStream {
 
             let syn = Protocol::Tcp(Segment::Syn(Syn { ack }));
             if !is_same(pair.local, pair.remote) {
-                world.send_message(pair.local, pair.remote, syn)?;
+                if let Err(e) = world.send_message(pair.local, pair.remote, syn) {
+                    world.current_host_mut().tcp.reset_stream(pair);
+                    return Err(e);
+                }
             } else {
                 send_loopback(pair.local, pair.remote, syn);
             };
@@ -95,9 +98,15 @@ impl TcpStream {
             Ok::<_, Error>((pair, rx, bidi))
         })?;
 
+        // Until the handshake completes nothing else owns the stream-table
+        // entry: release it if the connect is refused or this future is dropped.
+        let guard = ConnectGuard { pair, armed: true };
+
         syn_ack.await.map_err(|_| {
             io::Error::new(io::ErrorKind::ConnectionRefused, pair.remote.to_string())
         })?;
+
+        let pair = guard.disarm();
 
         tracing::trace!(target: TRACING_TARGET, src = ?pair.remote, dst = ?pair.local, protocol = %"TCP SYN-ACK", "Recv");
 
@@ -191,6 +200,28 @@ impl TcpStream {
     /// available.
     pub fn poll_peek(&mut self, cx: &mut Context<'_>, buf: &mut ReadBuf) -> Poll<Result<usize>> {
         self.read_half.poll_peek(cx, buf)
+    }
+}
+
+/// Owns the stream-table entry registered by `connect` until the handshake
+/// completes. Releases it if the connect fails or its future is dropped.
+struct ConnectGuard {
+    pair: SocketPair,
+    armed: bool,
+}
+
+impl ConnectGuard {
+    fn disarm(mut self) -> SocketPair {
+        self.armed = false;
+        self.pair
+    }
+}
+
+impl Drop for ConnectGuard {
+    fn drop(&mut self) {
+        if self.armed {
+            World::current_if_set(|world| world.current_host_mut().tcp.reset_stream(self.pair));
+        }
     }
 }
 
